@@ -2,6 +2,13 @@
 //! Positive controls. Nothing here is ever executed; it is only compiled by the factgen driver.
 
 pub mod network {
+    /// C02.R8 control: a link hop that forwards with a non-blocking send drops the message when the queue is full
+    pub fn lossy_forward(s: &flume::Sender<u8>, m: u8) {
+        if let Err(_e) = s.try_send(m) {}
+    }
+    pub fn blocking_forward(s: &flume::Sender<u8>, m: u8) {
+        s.send(m).unwrap();
+    }
     pub mod network_channel {
         pub struct NetworkSender<Out>(pub std::marker::PhantomData<Out>);
         impl<Out> NetworkSender<Out> {
@@ -48,6 +55,7 @@ pub mod block {
 }
 
 pub mod controls {
+
     use crate::block::batcher::Batcher;
     use crate::channel::Sender;
 
